@@ -219,9 +219,15 @@ func stubJSONUnmarshalS(data []byte, v any) error {
 		case jwsProtectedHeader:
 			*p = structToMap(s)
 		case map[string]interface{}:
+			// encoding/json decodes a JSON number into interface{} as float64 (json.Unmarshal has no UseNumber): an
+			// integer written by Marshal comes back as the nearest float64
 			m := map[string]interface{}{}
 			for k, val := range s {
-				m[k] = val
+				if n, isInt := val.(int64); isInt && numbersModelS {
+					m[k] = float64(n)
+				} else {
+					m[k] = val
+				}
 			}
 			*p = m
 		default:
@@ -269,6 +275,19 @@ func structToMap(s jwsProtectedHeader) map[string]interface{} {
 // ---- letter case: encoding/json fills a struct ignoring the case of keys, member by member in the order of the text
 // (json.Marshal writes a map's keys sorted), so the last member matching a field wins. With foldModelS on, the key of
 // the first extended attribute may differ from ONE specified key only in letter case, and may sort after it.
+// numbersModelS: model the float64 decoding of integer attribute values (see float64Exact)
+var numbersModelS bool
+
+// float64Exact: is the int64 v exactly representable as a float64 (so that it survives JSON decoding into interface{})?
+func float64Exact(v int64) bool {
+	a := uint64(rt.IteInt(v < 0, int(-v), int(v))) // |v|; MinInt64 gives 2^63
+	exact := a < 1<<53
+	for k := uint(1); k <= 11; k++ { // bit length 53+k: the low k bits must be zero
+		exact = rt.Or(exact, rt.And(a>>(52+k) == 1, a&(1<<k-1) == 0))
+	}
+	return exact
+}
+
 var (
 	foldModelS bool
 	foldIdxS   = -1
